@@ -57,8 +57,16 @@ def check_metadata(report):
             cands.append(t[0])
     appends = []
     from .common_rules import guarded_list_items
+    from ..pymodel import nfunc as _nf
+
+    def table_items(cfi):
+        raw = guarded_list_items(cfi.node)
+        if any(g is not None for g, _ in raw):
+            return raw, False
+        return guarded_list_items(_nf(m, cfi, keep={"client_name", "async_client_name"})), True      # e.g. a comprehension over a table of kinds
     for cfi in cands:
-        for guard, a0 in guarded_list_items(cfi.node):
+        items_, normal_ = table_items(cfi)
+        for guard, a0 in items_:
             if guard is None:
                 continue
             kind = "grpc" if pmatch("'grpc' in _O_.transport", ast.parse(guard, mode="eval").body) is not None else \
@@ -66,42 +74,45 @@ def check_metadata(report):
             if kind is None:
                 continue
             if isinstance(a0, ast.Tuple) and len(a0.elts) == 2 and isinstance(a0.elts[1], ast.Attribute) and isinstance(a0.elts[1].value, ast.Name):
-                appends.append((kind, f"({ast.unparse(a0.elts[0])}, <service>.{a0.elts[1].attr})"))
+                first = ast.unparse(a0.elts[0])
+                if normal_:      # constants are inlined in the normal form: name them again
+                    first = {repr(v): k for k, v in consts.items()}.get(first, first)
+                appends.append((kind, f"({first}, <service>.{a0.elts[1].attr})"))
             else:
                 appends.append((kind, ast.unparse(a0)))
-    loops = [n for n in fn.body if isinstance(n, ast.For)]
-    r.need(len(loops) == 1 and isinstance(loops[0].target, ast.Name), "for service in sorted(services)")
-    SV = loops[0].target.id
     exp = [("grpc", "(TRANSPORT_GRPC, <service>.client_name)"), ("grpc", "(TRANSPORT_GRPC_ASYNC, <service>.async_client_name)"),
            ("rest", "(TRANSPORT_REST, <service>.client_name)")]
     r.instance("transport table")
     r.check(appends == exp, p, fn.lineno, str(appends), "grpc -> sync + asyncio client, rest -> sync client, each with its class name")
-    r.instance("services sorted")
-    r.check(pmatch("sorted(self.services.values(), key=lambda _S_: _S_.name)", loops[0].iter) is not None, p, loops[0].lineno, ast.unparse(loops[0].iter),
-            "every service of the API, sorted by name")
-    ms = [n for n in ast.walk(loops[0]) if isinstance(n, ast.Assign) and pmatch("sorted(_SV_.methods.values(), key=lambda _X_: _X_.name)", n.value, {"_SV_": SV}) is not None]
-    r.instance("methods sorted")
-    r.check(len(ms) == 1, p, loops[0].lineno, "methods = sorted(service.methods.values(), key=name)", "every method of the service, sorted by name")
-    app = [c for c in calls(loops[0]) if ast.unparse(c.func).endswith(".methods.append") and c.args]
+    # the loops, read off the normal form (sort keys given as lambdas or attrgetter, pairs precomputed in a list or not ...)
+    from .common_rules import stmt_guards
+    from ..pymodel import nfunc as _nfn
+    nfm = _nfn(m, fi, keep={"to_snake_case", "client_method_name"})
+    adds = [(g, st) for g, st in stmt_guards(nfm) if isinstance(st, ast.Expr) and isinstance(st.value, ast.Call)
+            and ast.unparse(st.value.func).endswith(".methods.append") and ".rpcs.get_or_create(" in ast.unparse(st.value.func)]
     r.instance("library method name")
-    r.check(len(app) == 1, p, loops[0].lineno, f"{len(app)} appends to rpcs[...].methods", "exactly one library method per rpc and client")
-    if len(app) == 1:
-        txt = reaching_text(fn, app[0].args[0])
-        r.check("client_method_name" in txt and "to_snake_case(" in txt, p, app[0].lineno, txt[:200],
+    r.check(len(adds) == 1, p, fn.lineno, f"{len(adds)} appends to rpcs[...].methods", "exactly one library method per rpc and client")
+    if len(adds) == 1:
+        g, st = adds[0]
+        fors = [x for x in g if x[0] == "for"]
+        conds = [x for x in g if x[0] != "for"]
+        svc = [x for x in fors if x[2] == "sorted(self.services.values(), key=lambda _k: _k.name)" or
+               (x[2].startswith("sorted(self.services.values(), key=lambda ") and x[2].endswith(".name)"))]
+        r.instance("services sorted")
+        r.check(len(svc) == 1, p, fn.lineno, str([x[2][:70] for x in fors]), "every service of the API, sorted by name")
+        SV = svc[0][1] if svc else "service"
+        mth = [x for x in fors if x[2].startswith(f"sorted({SV}.methods.values(), key=lambda ") and x[2].endswith(".name)")]
+        r.instance("methods sorted")
+        r.check(len(mth) == 1, p, fn.lineno, str([x[2][:70] for x in fors]), "every method of the service, sorted by name")
+        MV = mth[0][1] if mth else "method"
+        r.check(ast.unparse(st.value.args[0]) == f"to_snake_case({MV}.client_method_name)", p, fn.lineno, ast.unparse(st.value.args[0])[:120],
                 "the library method name must be to_snake_case(Method.client_method_name): the same name the client templates define "
                 "(keyword RPCs get '_', internal ones a leading '_')")
-        # not under a filter
-        inner = [n for n in ast.walk(loops[0]) if isinstance(n, ast.For) and any(x is app[0] for x in ast.walk(n))]
-        conds = [n for n in ast.walk(loops[0]) if isinstance(n, ast.If) and any(x is app[0] for x in ast.walk(n))]
-        r.check(not conds, p, app[0].lineno, "append guarded by a condition", "no rpc may be left out of the metadata")
-    keys = [c for c in calls(loops[0]) if ast.unparse(c.func).endswith(".rpcs.get_or_create") and c.args]
-    r.instance("rpc key")
-    if keys:
-        txt = reaching_text(fn, keys[0].args[0])
-        r.check(len(keys) == 1 and ".name" in txt and "client_method_name" not in txt.split(" <- ")[0], p, keys[0].lineno, txt[:160],
-                "rpcs are keyed by the raw proto rpc name")
-    else:
-        r.check(False, p, fn.lineno, "rpcs.get_or_create(<rpc name>)", "rpc entries missing")
+        r.check(not conds, p, fn.lineno, f"append guarded by {conds}", "no rpc may be left out of the metadata")
+        r.instance("rpc key")
+        key = st.value.func.value.value           # <transport>.rpcs.get_or_create(<key>)
+        r.check(isinstance(key, ast.Call) and len(key.args) == 1 and ast.unparse(key.args[0]) == f"{MV}.name", p, fn.lineno,
+                ast.unparse(key)[:120], "rpcs are keyed by the raw proto rpc name")
     ctor = [c for c in calls(fn) if ast.unparse(c.func) == "gapic_metadata_pb2.GapicMetadata"]
     r.need(len(ctor) == 1, "GapicMetadata(...)")
     from ..pymodel import nfunc
@@ -167,13 +178,15 @@ def check_fixup(report, lib: Lib):
                         vals = [D(sk, e) for e in v.elts]
                         base = ks[2:-len(".name|snake_case()}'")]
                         exp = "'{ELEM(" + base + ".legacy_flattened_fields.values()).name}'"
-                        r3.check(all(x == exp for x in vals), *where(sk, v, lib.root), str(vals)[:160], f"values must be the field names of legacy_flattened_fields ({exp})")
+                        # iterating the mapping itself yields its keys, which C15.4 shows to be the field names
+                        exp_k = "'{ELEM(" + base + ".legacy_flattened_fields)}'"
+                        r3.check(all(x in (exp, exp_k) for x in vals), *where(sk, v, lib.root), str(vals)[:160], f"values must be the field names of legacy_flattened_fields ({exp})")
                         for e in v.elts:
                             es = sk.seg_of_node(e)
                             ex = [g for g in es.guards[len(seg.guards):] if g[0] != "loop"]
                             r3.check(not ex, *where(sk, e, lib.root), f"field guarded by {ex}", "every request field must be listed")
                             lp = [g for g in es.guards if g[0] == "loop" and g[1].endswith(".legacy_flattened_fields")]
-                            r3.check(len(lp) == 1 and lp[0][3].endswith(".legacy_flattened_fields.values()"), *where(sk, e, lib.root),
+                            r3.check(len(lp) == 1 and lp[0][3].endswith((".legacy_flattened_fields.values()", ".legacy_flattened_fields", ".legacy_flattened_fields.keys()")), *where(sk, e, lib.root),
                                      f"iterated as {lp[0][3] if lp else None}", "fields must keep the order of legacy_flattened_fields")
     r3.need(seen >= 1, "METHOD_TO_PARAMS entries")
     # the collection of methods: all services x all methods
@@ -206,7 +219,13 @@ def check_legacy(report):
          and pmatch("utils.partition(lambda _F_: _F_.required, self.input.fields.values())", n.value) is not None]
     r4.instance("partition call")
     # either partition + chain, or a STABLE sort whose key is `not required` (False sorts first; ties keep declaration order)
-    r4.check(len(a) == 1 or stable is not None, p, lf.node.lineno, "required, optional = utils.partition(lambda f: f.required, self.input.fields.values())",
+    # or: the message's own required_fields (checked to be the declaration-ordered filter on `required`) followed by the rest
+    split = nmatch(m, "collections.OrderedDict(((_F_.name, _F_) for _F_ in chain(self.input.required_fields, (_G_ for _G_ in self.input.fields.values() if not _G_.required))))", lf) \
+        or nmatch(m, "collections.OrderedDict(((_F_.name, _F_) for _F_ in chain(self.input.required_fields, [_G_ for _G_ in self.input.fields.values() if not _G_.required])))", lf)
+    if split is not None:
+        rq = m.func("gapic.schema.wrappers.MessageType.required_fields")
+        split = split if nmatch(m, "[_F_ for _F_ in self.fields.values() if _F_.required]", rq) is not None else None
+    r4.check(len(a) == 1 or stable is not None or split is not None, p, lf.node.lineno, "required, optional = utils.partition(lambda f: f.required, self.input.fields.values())",
              "all request fields must be partitioned by `required`")
     if a:
         REQ, OPT = [e.id for e in a[0].targets[0].elts]
